@@ -1,6 +1,7 @@
 import RemocModel.Link.Model
 import RemocModel.Wire.Model
 import Driver.Util
+import Driver.LinkFwd
 /-
 Driver for the port-level correspondence (C01 C02 C03 C11): reads traces produced by the `mux`
 harness (two real chmux endpoints on script-owned wires) and, per trace,
@@ -112,6 +113,10 @@ structure Sim where
   closeOk : Assoc Nat := []
   /-- line of the latest quiescent point -/
   lastSettle : Nat := 0
+  /-- `Receiver::forward` calls: model phase and real-trace monitors (`Driver/LinkFwd.lean`) -/
+  fwds : List FwdSim := []
+  c05 : Bool := true
+  pm : PairMon := {}
 
 def Sim.diff (s : Sim) (line : Nat) (what : String) : Sim :=
   if s.exact && !s.teardown then
@@ -124,6 +129,7 @@ def Sim.fail (s : Sim) (prop : String) (line : Nat) (what : String) : Sim :=
   | "c01" => { s with c01 := false }
   | "c02" => { s with c02 := false }
   | "c11" => { s with c11 := false }
+  | "c05" => { s with c05 := false }
   | _ => { s with c03 := false }
 
 def kvGet (ws : List String) (key : String) : Option String :=
@@ -219,6 +225,114 @@ def Sim.setLink (s : Sim) (name fromSide : String) (l : LinkSim) : Sim :=
 def Sim.addPredicted (s : Sim) (rs : List (String × String)) : Sim :=
   { s with predicted := rs.foldl (fun m (k, v) => m.set k v) s.predicted }
 
+/-! ### port forwarders (`Receiver::forward`): model run and real-trace monitors -/
+
+def modifyAt {α} (l : List α) (i : Nat) (g : α → α) : List α :=
+  (List.range l.length).zip l |>.map (fun (j, x) => if j == i then g x else x)
+
+def Sim.updFwd (s : Sim) (i : Nat) (g : FwdSim → FwdSim) : Sim := { s with fwds := modifyAt s.fwds i g }
+
+def Sim.isFwdDst (s : Sim) (key : String) : Bool := s.fwds.any (·.dst == key)
+
+/-- result of `forward` as the harness prints it (the byte total is not modelled) -/
+def fwdResultText (b : State) : FwdResult → String
+  | .ok => "ok-forward"
+  | .errRecv => "err recv"
+  | .errSend => s!"err send err closed gracefully={match b.s.closed with | some true => "1" | _ => "0"}"
+
+/-- Run forwarder `i` of the model (`Remoc.Link.fstep`, pairing as coded) until no forwarder label is enabled.
+The two links live in `s.links`; after `forward` returned the harness drops both ports. -/
+partial def Sim.runFwd (s : Sim) (i : Nat) : Sim :=
+  match s.fwds[i]? with
+  | none => s
+  | some fs =>
+    match s.links.get? fs.src, s.links.get? fs.dst with
+    | some la, some lb =>
+      let f : Fwd := { a := la.st, b := lb.st, ph := fs.ph, closedSeen := fs.closedSeen }
+      let labels : List FLabel :=
+        match fs.ph with
+        | .done _ => [.dropTx, .dropRx]
+        | _ => [.fail, .emit, .down .giveBack, .down .request, .recvChunk, .recvAny, .closedEvt, .connect,
+                .alloc (1000 + fs.nAlloc)]
+      match labels.findSome? (fun l => (fstep .asCoded la.cfg lb.cfg f l).map (fun f' => (l, f'))) with
+      | none => s
+      | some (l, f') =>
+        let la' := { la with st := f'.a, backAll := la.backAll ++ f'.a.back.drop la.st.back.length }
+        let lb' := { lb with st := f'.b, backAll := lb.backAll ++ f'.b.back.drop lb.st.back.length }
+        let s := { s with links := (s.links.set fs.src la').set fs.dst lb' }
+        let isAlloc := match l with | .alloc _ => true | _ => false
+        let s := s.updFwd i (fun x => { x with ph := f'.ph, closedSeen := f'.closedSeen,
+                                               nAlloc := if isAlloc then x.nAlloc + 1 else x.nAlloc })
+        let s := match fs.ph, f'.ph with
+          | .done _, _ => s
+          | _, .done r => s.addPredicted [(fs.k, fwdResultText f'.b r)]
+          | _, _ => s
+        s.runFwd i
+    | _, _ => s
+
+def Sim.runAllFwd (s : Sim) : Sim := (List.range s.fwds.length).foldl (fun s i => s.runFwd i) s
+
+/-- a frame of the source port of a forwarder was delivered to the forwarding endpoint -/
+def Sim.fwdOnRx (s : Sim) (key : String) (f : Frame) : Sim :=
+  let isPorts := match f with | .ports _ _ _ => true | _ => false
+  { s with fwds := s.fwds.map (fun x =>
+      if x.src == key then { x with upRx := x.upRx ++ [f], upCur := if isPorts then x.upCur else none } else x) }
+
+/-- the forwarding endpoint put a frame for the destination port of a forwarder on the wire:
+`forward_chunks_exact` on the real frames -/
+def Sim.fwdOnTx (s : Sim) (line : Nat) (key : String) (f : Frame) : Sim :=
+  s.fwds.zipIdx.foldl (fun s (x, i) =>
+    if x.dst != key then s else
+    let isPorts := match f with | .ports _ _ _ => true | _ => false
+    let x' := { x with downTx := x.downTx ++ [f], downCur := if isPorts then x.downCur else none }
+    let s := s.updFwd i (fun _ => x')
+    let s := if x'.exactOk then s else
+      s.fail "c11" line s!"forwarder {x.k}: the messages completed on {x.dst} {showMsgs (parse none x'.downTx)} are not a prefix of the messages received on {x.src} {showMsgs (parse none x'.upRx)} (a truncated, altered or invented message was forwarded as complete)"
+    -- `forward_eos_after_all`: after an `Ok` return the sender is dropped; its `SendFinish` follows every relayed
+    -- frame on the wire, and by then everything received must have been completed downstream
+    match f with
+    | .finish =>
+      if x'.retOk && !x'.allRelayed then
+        s.fail "c11" line s!"forwarder {x.k} returned Ok (upstream ended) and end-of-stream is sent on {x.dst} after the messages {showMsgs (parse none x'.downTx)}, but it had received {showMsgs (parse none x'.upRx)} on {x.src}"
+      else s
+    | _ => s) s
+
+/-- ids of a PortData frame on a forwarder's source (delivered) or destination (put on the wire) port:
+`forward_requests_paired` on the real frames -/
+def Sim.fwdIds (s : Sim) (line : Nat) (isTx : Bool) (key : String) (ids : List Nat) (first last : Bool) : Sim :=
+  s.fwds.zipIdx.foldl (fun s (x, i) =>
+    if !isTx && x.src == key then
+      let (cur, done) := idsStep x.upCur x.upIds ids first last
+      s.updFwd i (fun x => { x with upIds := done, upCur := cur })
+    else if isTx && x.dst == key then
+      let (cur, done) := idsStep x.downCur x.downIds ids first last
+      let x' := { x with downIds := done, downCur := cur }
+      let s := s.updFwd i (fun _ => x')
+      if natPrefix x'.downIds x'.upIds then s else
+        s.fail "c05" line s!"forwarder {x.k}: the forwarded connect carries ids {x'.downIds} but the received requests have ids {x'.upIds} (ids must be preserved, in order)"
+    else s) s
+
+/-- close notification for a forwarder's destination port delivered to the forwarding endpoint -/
+def Sim.fwdOnCloseRx (s : Sim) (line : Nat) (key : String) (isFinish : Bool) : Sim :=
+  { s with fwds := s.fwds.map (fun x =>
+      if x.dst != key then x else
+      let x := if x.closeRx.isNone then { x with closeRx := some (!isFinish, line) } else x
+      if isFinish && x.finRx.isNone then { x with finRx := some line } else x) }
+
+/-- the forwarding endpoint put `ReceiveClose` for a forwarder's source port on the wire:
+`forward_close_classified` (1) on the real trace -/
+def Sim.fwdOnCloseTx (s : Sim) (line : Nat) (key : String) : Sim :=
+  s.fwds.zipIdx.foldl (fun s (x, i) =>
+    if x.src != key then s else
+    let s := s.updFwd i (fun x => { x with closeTx := some line })
+    if x.closeRx.isSome then s else
+      s.fail "c11" line s!"forwarder {x.k} closed its upstream receiver ({x.src}) although no close notification for {x.dst} had been delivered to it") s
+
+/-- key (`name>sender side`) of the link a port-addressed message belongs to; `port` is the number at the
+side that receives the message -/
+def Sim.keyOf (s : Sim) (recvSide : String) (port : Nat) : Option String :=
+  (s.portName.get? (recvSide ++ ":" ++ toString port)).map (fun name => name ++ ">" ++ other recvSide)
+
 /-- the frame as the model sees it: port frames are compared by count and flags only -/
 def normFrame : Frame → Frame
   | .ports ids f l => .ports (List.replicate ids.length 0) f l
@@ -256,6 +370,7 @@ def Sim.onTxFrame (s : Sim) (line : Nat) (side : String) (port : Nat) (f : Frame
   match s.portName.get? (rside ++ ":" ++ toString port) with
   | none => s     -- port not (yet) known: frames of ports opened inside the scenario are ignored
   | some name =>
+    let s := s.fwdOnTx line (name ++ ">" ++ side) f
     match s.link? name side with
     | none => s
     | some l =>
@@ -283,6 +398,7 @@ def Sim.onRxFrame (s : Sim) (line : Nat) (rside : String) (port : Nat) (f : Fram
   | none => s
   | some name =>
     let side := other rside
+    let s := s.fwdOnRx (name ++ ">" ++ side) f
     match s.link? name side with
     | none => s
     | some l =>
@@ -332,6 +448,8 @@ def Sim.onRxCredits (s : Sim) (line : Nat) (side : String) (port : Nat) (n : Nat
         let s := if m == n then s else s.diff line s!"provide {name}>{side}: model {m}, real {n}"
         match l.stepL .provide with
         | some l' =>
+          -- the sends of a forwarder are run by its own model (`runFwd`)
+          if s.isFwdDst (name ++ ">" ++ side) then s.setLink name side l' else
           let (l'', rs) := l'.runSender []
           (s.setLink name side l'').addPredicted rs
         | none => s.setLink name side l
@@ -345,7 +463,25 @@ def Sim.onRxCloseFin (s : Sim) (line : Nat) (side : String) (port : Nat) (isFini
     match s.link? name side with
     | none => s
     | some l =>
+      let s := s.fwdOnCloseRx line (name ++ ">" ++ side) isFinish
       let l := if l.mCloseRx.isNone then { l with mCloseRx := some (!isFinish, line) } else l
+      -- A forwarder that finds both upstream data and the close of its destination ready handles them in the
+      -- order `tokio::select!` picks at random; the model run takes the data first.  Both orders are accepted:
+      -- (A) the real forwarder closed its source port, the model's has not (yet): adopt the close;
+      -- (B) the model's forwarder closed its source port, the real one returned without: drop the model's close.
+      let key := name ++ ">" ++ side
+      let fwdSrc := s.fwds.find? (·.src == key)
+      let headClose := match l.st.back.dropWhile (fun b => match b with | .credits _ => true | _ => false) with
+        | .recvClose :: _ => true | _ => false
+      let dstClosed := match fwdSrc with
+        | some x => ((s.links.get? x.dst).map (fun dl => dl.st.s.closed.isSome)).getD false
+        | none => false
+      let caseA := !isFinish && !headClose && !(l.st.back.any (· == .recvClose)) &&
+        (match fwdSrc with | some x => !x.closedSeen && dstClosed | none => false)
+      let caseB := isFinish && headClose && fwdSrc.isSome
+      let l := if caseA then { l with st := { l.st with back := .recvClose :: l.st.back, r := { l.st.r with closed := true } } }
+               else if caseB then { l with st := { l.st with back := l.st.back.filter (· != .recvClose) } } else l
+      let s := if caseA then { s with fwds := s.fwds.map (fun x => if x.src == key then { x with closedSeen := true } else x) } else s
       -- a credit return deferred by a full event queue (`return_fut`) is flushed by the next receive
       -- call and may therefore be overtaken by the close notification: reorder the model's FIFO
       let isCred := fun (b : Back) => match b with | .credits _ => true | _ => false
@@ -361,6 +497,7 @@ def Sim.onRxCloseFin (s : Sim) (line : Nat) (side : String) (port : Nat) (isFini
         let s := if okKind then s else s.diff line s!"close {name}>{side}: model head of back queue differs"
         match l.stepL .provide with
         | some l' =>
+          if s.isFwdDst (name ++ ">" ++ side) then s.setLink name side l' else
           let (l'', rs) := l'.runSender []
           (s.setLink name side l'').addPredicted rs
         | none => s.setLink name side l
@@ -393,14 +530,24 @@ def Sim.onWire (s : Sim) (line : Nat) (isTx : Bool) (side : String) (hex : Strin
         | .data port first last =>
           if isTx then { s with hdrTx := s.hdrTx.set side (port, first, last) }
           else { s with hdrRx := s.hdrRx.set side (port, first, last) }
-        | .portData port first last _ ps _ =>
+        | .portData port first last _ ps ids =>
           let f := Frame.ports (List.replicate ps.length 0) first last
+          -- the ids actually carried (id = port number when none is given)
+          let s := match s.keyOf (if isTx then other side else side) port with
+            | some key => s.fwdIds line isTx key (ids.getD ps) first last
+            | none => s
           if isTx then s.onTxFrame line side port f else s.onRxFrame line side port f
         | .portCredits port n =>
           if isTx then s.onTxCredits line side port n else s.onRxCredits line side port n
         | .sendFinish port =>
           if isTx then s.onTxFrame line side port .finish else s.onRxFrame line side port .finish
-        | .receiveClose port => if isTx then s else s.onRxCloseFin line side port false
+        | .receiveClose port =>
+          if isTx then
+            -- `port` is the number at the other side; the link is <name>><other side> (its sender is told)
+            match s.portName.get? (other side ++ ":" ++ toString port) with
+            | some name => s.fwdOnCloseTx line (name ++ ">" ++ other side)
+            | none => s
+          else s.onRxCloseFin line side port false
         | .receiveFinish port => if isTx then s else s.onRxCloseFin line side port true
         | _ => s
 
@@ -423,8 +570,83 @@ def Sim.onPort (s : Sim) (name side : String) (localPort : Nat) : Sim :=
 
 def splitParts (t : String) : List String := if t == "none" then [] else t.splitOn ","
 
+/-- c05 bookkeeping on script operations: which half a request was accepted onto, what was sent into which half -/
+def Sim.pmOp (s : Sim) (ws : List String) : Sim :=
+  let pm := s.pm
+  match ws with
+  | ["reqaccept", _, _, rq, name] =>
+    match lookupS pm.reqId rq with
+    | some id => { s with pm := { pm with halfId := pm.halfId ++ [(name, id)], decided := pm.decided ++ [(id, none)] } }
+    | none => s
+  | "reqreject" :: _ :: _ :: rq :: rest =>
+    match lookupS pm.reqId rq with
+    | some id => { s with pm := { pm with decided := pm.decided ++ [(id, some (rest.head? == some "1"))] } }
+    | none => s
+  | ["send", _, _, name, hx] =>
+    match lookupS pm.halfId name with
+    | some id => { s with pm := { pm with sentOn := pm.sentOn ++ [(hx, id, name)] } }
+    | none => s
+  | [op, k, _, name] =>
+    if op == "recv" || op == "recvany" || op == "recvmsg" then { s with pm := { pm with recvOn := pm.recvOn ++ [(k, name)] } } else s
+  | _ => s
+
+/-- c05 on API results: `forward_requests_paired` observed end to end.  The connect of the half with id `x`
+resolves as the request with id `x` was answered, and data sent into a half comes out of the half with the same id. -/
+def Sim.pmRet (s : Sim) (line : Nat) (k : String) (res : List String) : Sim :=
+  let pm := s.pm
+  -- results of `pconnect`: names k.i, ids from the `apiid` lines (id = port number without a custom id)
+  let s := match res with
+    | ["ok", pl] =>
+      if pl.startsWith "ports=" then
+        match parseNatList (pl.drop 6).toString with
+        | some ps =>
+          let add := ps.zipIdx.map (fun (p, i) => (s!"{k}.{i}", (lookupN pm.apiId p).getD p))
+          { s with pm := { pm with halfId := pm.halfId ++ add } }
+        | none => s
+      else s
+    | ["requests", l] =>
+      if l == "-" then s else
+      let add := (l.splitOn ",").zipIdx.filterMap (fun (e, j) =>
+        match e.splitOn ":" with
+        | [_, id, _] => id.toNat?.map (fun n => (s!"{k}.{j}", n))
+        | _ => none)
+      { s with pm := { pm with reqId := pm.reqId ++ add } }
+    | _ => s
+  let pm := s.pm
+  -- result of an origin connect `pc.i`
+  let isConn := (lookupS pm.recvOn k).isNone && (res.head? == some "ok" && (res.getD 1 "").startsWith "local=" || res.head? == some "err")
+  let s := match lookupS pm.halfId k with
+    | some id =>
+      -- (requests that are dropped unanswered - teardown, a forwarder that has returned - resolve as rejected)
+      if !isConn || s.teardown then s else
+      match lookupN pm.decided id with
+      | none =>
+        if !(pm.reqId.any (·.2 == id)) || s.fwds.any (·.retLine.isSome) then s else
+        s.fail "c05" line s!"connect {k} (id {id}) resolved with '{" ".intercalate res}' before the request with its id was answered: it was paired with another request"
+      | some none =>
+        if res.head? == some "ok" then s else
+          s.fail "c05" line s!"connect {k} (id {id}) resolved with '{" ".intercalate res}' although the request with its id was accepted"
+      | some (some np) =>
+        let want := if np then "remote-ports-exhausted" else "rejected"
+        if res == ["err", want] then s else
+          s.fail "c05" line s!"connect {k} (id {id}) resolved with '{" ".intercalate res}' although the request with its id was rejected ({want})"
+    | none => s
+  -- data coming out of a half
+  match res, lookupS pm.recvOn k with
+  | ["data", hx], some name =>
+    match lookupS pm.halfId name, lookupS pm.sentOn hx with
+    | some idr, some (ids, sname) =>
+      if idr != ids then
+        s.fail "c05" line s!"{k}: data sent into the half with id {ids} came out of the half {name} with id {idr} (halves cross-wired)"
+      else if sname == name then
+        s.fail "c05" line s!"{k}: data sent into the half {name} came back out of the same half (not piped to its counterpart)"
+      else s
+    | _, _ => s
+  | _, _ => s
+
 /-- Script operation echoed by the harness -/
 def Sim.onOp (s : Sim) (line : Nat) (ws : List String) : Sim :=
+  let s := s.pmOp ws
   let s := match ws with
     | _ :: k :: _ => { s with callLine := s.callLine.set k line }
     | _ => s
@@ -538,8 +760,16 @@ def Sim.onOp (s : Sim) (line : Nat) (ws : List String) : Sim :=
   | ["forward", k, side, name, dst] =>
     -- `Receiver::forward` of port `name` into the sender of port `dst`, both on `side`: whatever completes on
     -- the source link counts as sent on the destination link
-    { s with fwd := s.fwd.set (name ++ ">" ++ other side) (dst ++ ">" ++ side),
-             calls := s.calls.set k (name ++ ">" ++ other side, "forward") }
+    let s := { s with fwd := s.fwd.set (name ++ ">" ++ other side) (dst ++ ">" ++ side),
+                      calls := s.calls.set k (name ++ ">" ++ other side, "forward") }
+    -- chunk-granular model of the forwarder: `forward` switches the graceful-close override of its sender on
+    let dkey := dst ++ ">" ++ side
+    let s := match s.links.get? dkey with
+      | some dl => { s with links := s.links.set dkey { dl with cfg := { dl.cfg with ovr := true } } }
+      | none => s
+    let fs : FwdSim := { k := k, src := name ++ ">" ++ other side, dst := dkey, side := side }
+    let s := { s with fwds := s.fwds ++ [fs] }
+    s.runAllFwd
   | [op, k, side, name] =>
     if op == "recvany" || op == "recvchunk" || op == "recv" then
       -- the receiver of port `name` on `side` is the receiving half of link name>other(side)
@@ -617,9 +847,33 @@ def Sim.onOp (s : Sim) (line : Nat) (ws : List String) : Sim :=
     | none => s
   | _ => s
 
+/-- `forward` returned: `forward_eos_after_all` (1) and `forward_close_classified` (3)(4) on the real trace -/
+def Sim.fwdOnRet (s : Sim) (line : Nat) (k : String) (res : List String) : Sim :=
+  s.fwds.zipIdx.foldl (fun s (x, i) =>
+    if x.k != k then s else
+    let s := s.updFwd i (fun x => { x with retLine := some line })
+    if s.teardown then s else
+    match res with
+    | "ok" :: _ =>
+      -- (the frames it queued may not be on the wire yet: judged when its `SendFinish` appears, see `fwdOnTx`)
+      s.updFwd i (fun x => { x with retOk := true })
+    | ["err", "send", "err", "closed", g] =>
+      match x.closeRx with
+      | none => s.fail "c11" line s!"forwarder {k} failed with 'closed' ({g}) but no close notification for {x.dst} was delivered to it"
+      | some (graceful, _) =>
+        if x.finRx.isNone then
+          s.fail "c11" line s!"forwarder {k} failed with 'closed' ({g}) although {x.dst} was only closed gracefully: it must keep relaying what was sent (graceful-close override)"
+        else if graceful || g == "gracefully=0" then s
+        else s.fail "c11" line s!"forwarder {k} reports {g} but the receiver of {x.dst} was dropped"
+    | ["err", "recv"] =>
+      s.fail "c11" line s!"forwarder {k} failed with a receive error on a healthy connection"
+    | _ => s) s
+
 /-- A call returned in the real system -/
 def Sim.onRet (s : Sim) (line : Nat) (k : String) (res : List String) : Sim :=
   let s := { s with seenCalls := s.seenCalls ++ [k] }
+  let s := s.pmRet line k res
+  let s := s.fwdOnRet line k res
   match s.calls.get? k with
   | none => s
   | some (key, role) =>
@@ -689,13 +943,14 @@ def Sim.onRet (s : Sim) (line : Nat) (k : String) (res : List String) : Sim :=
         if t.startsWith "requests " then
           let n := if t == "requests -" then 0 else ((t.drop 9).toString.splitOn ",").length
           s!"requests-n {n}"
-        else if t.startsWith "ok ports=" then "ok-ports" else t
+        else if t.startsWith "ok ports=" then "ok-ports"
+        else if t.startsWith "ok total=" then "ok-forward" else t
       match s.predicted.get? k with
       | some p =>
         let s := { s with predicted := s.predicted.erase k }
         if p == norm resText then s else s.diff line s!"ret {k}: model predicts '{p}', real '{resText}'"
       | none =>
-        if role == "send" || role == "chunks" || role == "recv" || role == "pconnect" || role == "trysend" then
+        if role == "send" || role == "chunks" || role == "recv" || role == "pconnect" || role == "trysend" || role == "forward" then
           s.diff line s!"ret {k}: real returned '{resText}' but the model call is still pending"
         else s
 
@@ -788,6 +1043,41 @@ def Sim.c03AtSettle (s : Sim) (line : Nat) (pend : List String) (creditLines : L
         | none => s
     | _ => s) s
 
+/-- `forward_close_propagates` on the real trace: at a quiescent point with drained, open wires a forwarder that
+is between two messages and was told that its destination closed has closed its source port -/
+def Sim.fwdAtSettle (s : Sim) (line : Nat) (creditLines : List (List String)) : Sim :=
+  if s.teardown then s else
+  let drained := (s.txCount.get? "A").getD 0 == (s.rxCount.get? "B").getD 0 &&
+                 (s.txCount.get? "B").getD 0 == (s.rxCount.get? "A").getD 0
+  let allOpen := (s.windowOpen.get? "A").getD true && (s.windowOpen.get? "B").getD true &&
+                 (s.releaseOpen.get? "A").getD true && (s.releaseOpen.get? "B").getD true
+  if !(drained && allOpen) then s else
+  s.fwds.foldl (fun s x =>
+    match x.closeRx with
+    | some (_, cl) =>
+      -- (a forwarder holding a message it cannot send for lack of credits is not in its `select!`: require
+      -- that its sender has credits for any frame)
+      let pool := match x.dst.splitOn ">" with
+        | [name, side] => (creditLines.find? (fun (ws : List String) => ws.take 2 == [name, side])).bind (fun ws => kvNat ws "pool")
+        | _ => none
+      if x.closeTx.isNone && x.retLine.isNone && x.looksIdle && (pool.getD 0) ≥ 4 then
+        s.fail "c11" line s!"forwarder {x.k}: a close notification for {x.dst} was delivered (line {cl}) and the forwarder is between two messages, yet it has not closed its source port {x.src}: the close does not reach the origin"
+      else s
+    | none => s) s
+  |> fun s =>
+  -- a forwarder that still holds a received message and whose destination receiver was dropped cannot deliver it:
+  -- its send fails, `forward` returns, and the drop of its ports tells the origin
+  s.fwds.foldl (fun s x =>
+    match x.finRx with
+    | some fl =>
+      if x.retLine.isSome || x.allRelayed then s else
+      match x.closeRx with
+      | some (true, cl) =>
+        s.fail "c11" line s!"forwarder {x.k} has not returned although its destination receiver ({x.dst}) was dropped (line {fl}) after a graceful close (line {cl}) while it still holds a received message: its send waits for credits forever and the drop never reaches the origin"
+      | _ =>
+        s.fail "c11" line s!"forwarder {x.k} has not returned although its destination receiver ({x.dst}) was dropped (line {fl}) while it still holds a received message"
+    | none => s) s
+
 structure RunAcc where
   sim : Sim := {}
   creditLines : List (List String) := []
@@ -799,7 +1089,7 @@ def finishTrace (s : Sim) : IO Unit := do
   if s.name != "" then
     for l in s.out do IO.println l
     let b := fun (x : Bool) => if x then "ok" else "FAIL"
-    IO.println s!"END {s.name} events={s.events} replay={if s.replayOk then "ok" else "mismatch"} c01={b s.c01} c02={b s.c02} c03={b s.c03} c11={b s.c11}"
+    IO.println s!"END {s.name} events={s.events} replay={if s.replayOk then "ok" else "mismatch"} c01={b s.c01} c02={b s.c02} c03={b s.c03} c11={b s.c11} c05={b s.c05}"
 
 def stepLine (a : RunAcc) (n : Nat) (line : String) : IO RunAcc := do
   let ws := words line
@@ -820,7 +1110,11 @@ def stepLine (a : RunAcc) (n : Nat) (line : String) : IO RunAcc := do
   | "op" :: rest => return { a with sim := s.onOp n rest, creditLines := [] }
   | "opd" :: rest => return { a with sim := s.onOp n rest, creditLines := [] }
   | ["tx", side, hx] => return { a with sim := s.onWire n true side hx }
-  | ["rx", side, hx] => return { a with sim := s.onWire n false side hx }
+  | ["rx", side, hx] => return { a with sim := (s.onWire n false side hx).runAllFwd }
+  | ["apiid", port, id] =>
+    match port.toNat?, id.toNat? with
+    | some p, some i => return { a with sim := { s with pm := { s.pm with apiId := s.pm.apiId ++ [(p, i)] } } }
+    | _, _ => return { a with sim := s }
   | "ret" :: k :: res => return { a with sim := s.onRet n k res }
   | "credits" :: rest =>
     return { a with sim := s.onCredits n rest false, creditLines := a.creditLines ++ [rest] }
@@ -831,6 +1125,7 @@ def stepLine (a : RunAcc) (n : Nat) (line : String) : IO RunAcc := do
       | none => []
     let s := s.onSettled n rest
     let s := s.c03AtSettle n pend a.creditLines
+    let s := s.fwdAtSettle n a.creditLines
     -- (a quiescent point counts only if every wire was open)
     let s := if (s.windowOpen.get? "A").getD true && (s.windowOpen.get? "B").getD true &&
                 (s.releaseOpen.get? "A").getD true && (s.releaseOpen.get? "B").getD true then { s with lastSettle := n } else s
